@@ -225,9 +225,9 @@ Proof.
   replace (fl + (fL - fl)) with fL by lia. reflexivity.
 Qed.
 
-Lemma theta_exps_one s fL fR : canonical s -> theta_exps [s] fL fR = Some (2, [], 2).
+Lemma theta_exps_one s fL fR : canonical s -> theta_exps [s] fL fR = Some (fL, [], fR).
 Proof.
-  intros [[fl fr] [Hl Ha]]. cbn [theta_exps]. unfold get_B_act, full, fTh. rewrite Hl, Ha. cbn [fst snd].
+  intros [[fl fr] [Hl Ha]]. cbn [theta_exps]. unfold get_B_act. rewrite Hl, Ha. cbn [fst snd].
   rewrite !scale1_truth. reflexivity.
 Qed.
 
@@ -247,7 +247,7 @@ Qed.
 Lemma theta_exponents fin st i n ss fL fR :
   Forall canonical st -> window fin st i n = Some ss ->
   ((2 <= n)%nat -> get_theta fin st i n fL fR = Some (fL, repeat 2 (n - 1), fR)) /\
-  (n = 1%nat -> get_theta fin st i n fL fR = Some (2, [], 2)).
+  (n = 1%nat -> get_theta fin st i n fL fR = Some (fL, [], fR)).
 Proof.
   intros Hf Hw. destruct (window_spec fin st n i ss Hw) as [Hlen Hin].
   assert (Hc : Forall canonical ss).
